@@ -231,8 +231,9 @@ def _mk_sevm():
     return _SEVM["sevm"], _SEVM["args"]
 
 
-def run_code(contract):
-    """run contract code with empty calldata, returns list of (errclass|None, returndata bytes|str)"""
+def run_code(contract, sym_value=False):
+    """run contract code with empty calldata, returns list of (errclass|None, returndata bytes|str)
+    (with sym_value: callvalue is a symbol v and each entry also says whether the path admits v=0 / v=1)"""
     import z3
     from halmos.__main__ import mk_block, mk_solver
     from halmos.bytevec import ByteVec
@@ -245,7 +246,7 @@ def run_code(contract):
         target=this,
         caller=z3.BitVecVal(0xBBBB, 160),
         origin=z3.BitVecVal(0xBBBB, 160),
-        value=z3.BitVecVal(0, 256),
+        value=z3.BitVec("v", 256) if sym_value else z3.BitVecVal(0, 256),
         data=ByteVec(),
         call_scheme=EVM.CALL,
     )
@@ -267,7 +268,21 @@ def run_code(contract):
         if data is not None:
             data = data.unwrap() if hasattr(data, "unwrap") else data
             data = data.hex() if isinstance(data, bytes) else str(data)
-        out.append((err, data))
+        if sym_value:
+            v = z3.BitVec("v", 256)
+            adm = []
+            for val in (0, 1):
+                ok = True
+                for c in e.path.conditions:
+                    g = z3.simplify(z3.substitute(c, (v, z3.BitVecVal(val, 256))))
+                    if z3.is_false(g):
+                        ok = False
+                    elif not z3.is_true(g):
+                        raise RuntimeError(f"cannot ground path condition {c}")
+                adm.append(ok)
+            out.append((err, data, adm[0], adm[1]))
+        else:
+            out.append((err, data))
     return out
 
 
@@ -278,6 +293,8 @@ def jump_program(bs, target, cond):
     InvalidJumpDest; what happens afterwards is whatever the body does (reference-interpreted)."""
     if cond is None:
         head = [PUSH1, target, 0x56]  # JUMP
+    elif cond == "sym":
+        head = [0x34, 0x80, 0x50, PUSH1, target, 0x57]  # CALLVALUE DUP1 POP ; JUMPI on a symbolic condition (same length as the concrete head)
     else:
         head = [PUSH1, cond, PUSH1, target, 0x57]  # JUMPI (dest on top)
     return head + list(bs), len(head)
@@ -342,9 +359,43 @@ ERRMAP = {
 }
 
 
+def check_jump_sym(bs, target):
+    """JUMPI whose condition is the (symbolic) call value: for v in {0,1} every reported path admitting v must end like the
+    reference run with that concrete condition, and some path must admit it"""
+    from halmos.contract import Contract
+
+    prog, base = jump_program(bs, target, "sym")
+    wants = []
+    for val in (0, 1):
+        wants.append(ref_run(concrete_equiv(bs, target, val)))
+    if "loop" in wants:
+        return None, tuple(wants), None
+    try:
+        res = run_code(Contract.from_hexcode(bytes(prog).hex()), sym_value=True)
+    except Exception as e:
+        return f"exception {type(e).__name__}: {e}", tuple(wants), None
+    for val in (0, 1):
+        adm = [r for r in res if r[2 + val]]
+        if not adm:
+            return f"no path admits callvalue={val}: {res}", tuple(wants), res
+        for r in adm:
+            got = ERRMAP.get(r[0], r[0])
+            if got != wants[val]:
+                return f"callvalue={val}: got {got} expected {wants[val]}", tuple(wants), res
+    return None, tuple(wants), res
+
+
+def concrete_equiv(bs, target, val):
+    """same layout as the symbolic program (6-byte head) with the condition made concrete: PUSH1 val DUP1 POP would be 4 bytes, so
+    use PUSH2 00 val (3 bytes) + JUMPDEST-free filler: PUSH2 0x00 val ; PUSH1 target ; JUMPI = 6 bytes"""
+    return [0x61, 0x00, val, PUSH1, target, 0x57] + list(bs)
+
+
 def check_jump(bs, target, cond):
     from halmos.contract import Contract
 
+    if cond == "sym":
+        return check_jump_sym(bs, target)
     prog, base = jump_program(bs, target, cond)
     want = ref_run(prog)
     if want == "loop":
@@ -430,8 +481,8 @@ def run_shard(shard):
         for ln in range(1, shard["maxlen"] + 1):
             for rest in itertools.product(ALPHABET, repeat=ln - 1):
                 bs = [a] + list(rest)
-                for cond in (None, 0, 1):
-                    base = 3 if cond is None else 5
+                for cond in (None, 0, 1, "sym"):
+                    base = 3 if cond is None else (6 if cond == "sym" else 5)
                     for target in range(0, base + ln + 1):
                         acc.count("jump_programs")
                         bad, want, res = check_jump(bs, target, cond)
@@ -440,7 +491,7 @@ def run_shard(shard):
                             key = f"jump:{bytes(bs).hex()}:{target}:{cond}"
                             acc.violation(key, f"jump program body={bytes(bs).hex()} target={target} cond={cond}: {bad}",
                                           {"kind": "jump", "bs": bs, "target": target, "cond": cond})
-        acc.sample({"jump_body": bytes([a, JUMPDEST]).hex(), "targets": "0..len", "cond": [None, 0, 1]})
+        acc.sample({"jump_body": bytes([a, JUMPDEST]).hex(), "targets": "0..len", "cond": [None, 0, 1, "symbolic (callvalue)"]})
     return acc.result()
 
 
